@@ -162,7 +162,10 @@ func (s *fsm12) send(ctx context.Context, c Conn) (State, error) {
 		return StateErrored, err
 	}
 
-	if s.currentFlight.IsLastSendFlight() {
+	if s.currentFlight.IsLastSendFlight() || s.establishment.Established() {
+		// An endpoint that has already completed (a resumed server re-sending Flight 4b
+		// for a peer retransmission) goes back to Finished: it must not arm the
+		// retransmission timer again.
 		return StateFinished, nil
 	}
 
